@@ -65,6 +65,15 @@ fn bind_remotes<In: ExchangeData>(
     num_clients: usize,
     rx_senders: UnboundedReceiver<(ReceiverEndpoint, Sender<NetworkMessage<In>>)>,
 ) {
+    #[cfg(feature = "verif")]
+    let _verif_guard = crate::verif::NetGuard::new(
+        crate::verif::NetThread::DemuxBind,
+        (
+            coord.coord.block_id,
+            coord.coord.host_id,
+            coord.prev_block_id,
+        ),
+    );
     let address = (address.0.as_ref(), address.1);
     let address: Vec<_> = address
         .to_socket_addrs()
@@ -171,14 +180,37 @@ fn demux_thread<In: ExchangeData>(
         .map(|a| a.to_string())
         .unwrap_or_else(|_| "unknown".to_string());
     log::debug!("{} started", coord);
+    #[cfg(feature = "verif")]
+    let _verif_guard = crate::verif::NetGuard::new(
+        crate::verif::NetThread::Demux,
+        (
+            coord.coord.block_id,
+            coord.coord.host_id,
+            coord.prev_block_id,
+        ),
+    );
 
     // let mut r = std::io::BufReader::new(&mut stream);
     let mut r = &mut stream;
 
+    #[cfg(feature = "verif")]
+    let verif_idle = || {
+        crate::verif::emit(&crate::verif::Event::NetIdle {
+            kind: crate::verif::NetThread::Demux,
+        })
+    };
+    #[cfg(feature = "verif")]
+    verif_idle();
     while let Some((dest, message)) = remote_recv(coord, &mut r, &address) {
+        #[cfg(feature = "verif")]
+        crate::verif::emit(&crate::verif::Event::NetBusy {
+            kind: crate::verif::NetThread::Demux,
+        });
         if let Err(e) = senders[&dest].send(message) {
             warn!("demux failed to send message to {}: {:?}", dest, e);
         }
+        #[cfg(feature = "verif")]
+        verif_idle();
     }
 
     let _ = stream.shutdown(Shutdown::Both);
